@@ -4,7 +4,7 @@ import datetime
 import astral.moon as moon
 import astral.sidereal as sidereal
 from astral import Observer
-from common import F, I, T, E, N, Case, call, wall_us, instant_us
+from common import F, FS, I, T, E, N, Case, call, wall_us, instant_us
 import zones
 import gens
 
@@ -22,28 +22,28 @@ def gen_position(rng, n, tier="quick"):
         if k == 0:
             st, v = call(moon.moon_position, jd2000)
             yield Case("moon_position", "moon_position %s" % F(jd2000),
-                       ("%s %s %s" % (F(v.right_ascension), F(v.declination), F(v.distance)))
+                       ("%s %s %s" % (FS(v.right_ascension), FS(v.declination), FS(v.distance)))
                        if st == "ok" else E(v), {"jd2000": jd2000})
         elif k == 1:
             d = gens.rand_date(rng)
-            yield Case("gmst", "gmst_date %s" % I(d.toordinal()), F(sidereal.gmst(d)),
+            yield Case("gmst", "gmst_date %s" % I(d.toordinal()), FS(sidereal.gmst(d)),
                        {"date": str(d)})
         elif k == 2:
             d = gens.rand_date(rng, wide=False)
             dt = datetime.datetime(d.year, d.month, d.day, rng.randint(0, 23), rng.randint(0, 59),
                                    rng.randint(0, 59))
-            yield Case("gmst", "gmst_dt %s" % I(wall_us(dt)), F(sidereal.gmst(dt)),
+            yield Case("gmst", "gmst_dt %s" % I(wall_us(dt)), FS(sidereal.gmst(dt)),
                        {"datetime": str(dt)})
         elif k == 3:
             d = gens.rand_date(rng)
             lon = gens.rand_lon(rng)
             yield Case("lmst", "lmst_date %s %s" % (I(d.toordinal()), F(lon)),
-                       F(sidereal.lmst(d, lon)), {"date": str(d), "longitude": lon})
+                       FS(sidereal.lmst(d, lon)), {"date": str(d), "longitude": lon})
         else:
             f = [rng.uniform(-7, 7) for _ in range(3)]
             p = rng.random()
             yield Case("interpolate", "interpolate %s %s %s %s" % (F(f[0]), F(f[1]), F(f[2]), F(p)),
-                       F(moon.interpolate(f[0], f[1], f[2], p)), {"f": f, "p": p})
+                       FS(moon.interpolate(f[0], f[1], f[2], p)), {"f": f, "p": p})
 
 
 def gen_angles(rng, n, tier="quick"):
@@ -64,7 +64,7 @@ def gen_angles(rng, n, tier="quick"):
         # the model takes the UTC wall reading: the conversion itself is what D8 fixed,
         # so it is checked here by giving the model the instant, not the fields
         yield Case("moon." + name, "moon_%s %s %s %s" % (name, F(lat), F(lon), I(wall_us(naive))),
-                   F(v) if st == "ok" else E(v),
+                   FS(v) if st == "ok" else E(v),
                    {"latitude": lat, "longitude": lon, "datetime": dt.isoformat(), "zone": zl})
 
 
@@ -85,6 +85,10 @@ def gen_riseset(rng, n, tier="quick"):
             z = zones.rand_zone(rng, d0)
             d = gens.rand_date(rng, z, wide=False) if z.iana else d0
             name = "moonrise" if k == 1 else "moonset"
+            if rng.random() < 0.2:
+                st0, t0 = call(getattr(moon, name), o, d)
+                if st0 == "ok" and t0 is not None:
+                    z = zones.midnight_zone(rng, t0)
             st, v = call(getattr(moon, name), o, d, z.tzinfo)
             tags = ()
             if st == "ok":
@@ -100,10 +104,10 @@ def gen_phase(rng, n, tier="quick"):
         d = datetime.date.fromordinal(rng.randint(1, 3652059)) if rng.random() < 0.5 else \
             gens.rand_date(rng, wide=False)
         if i % 2:
-            yield Case("phase", "phase %s" % I(d.toordinal()), F(moon.phase(d)), {"date": str(d)})
+            yield Case("phase", "phase %s" % I(d.toordinal()), FS(moon.phase(d)), {"date": str(d)})
         else:
             yield Case("_phase_asfloat", "phase_asfloat %s" % I(d.toordinal()),
-                       F(moon._phase_asfloat(d)), {"date": str(d)})
+                       FS(moon._phase_asfloat(d)), {"date": str(d)})
 
 
 GROUPS = {
